@@ -618,3 +618,115 @@ func FuzzHistory(f *testing.F) {
 		}
 	})
 }
+
+// TestManyRangesOfOneLength: "operation sequences of any length" - a block list of single hosts, or of /24s, easily has
+// more entries of one prefix length than fit into a small counter. One filter takes 2^16 + 1 (now and then 2^17 + 1)
+// distinct ranges of one length (16..32), spread over the address space by an odd stride; at 255, 256, 257, 65535,
+// 65536, 65537 (131071, 131072, 131073) live ranges, and again on the way down while ranges are removed, the first,
+// the last and some ranges in between must be inside (probed at an address with arbitrary host bits) and ranges that
+// were never added, or were removed, outside. A few ranges of other lengths ride along and must not be disturbed
+// (round twenty-two, C11-agent22: a 16-bit count of keys per prefix length that wraps to "none").
+func TestManyRangesOfOneLength(t *testing.T) {
+	rt.Check(t, 3, 160, func(t *rapid.T) {
+		ones := rapid.IntRange(16, 32).Draw(t, "prefixLength")
+		space := uint64(1) << uint(ones)
+		start := rapid.Uint32().Draw(t, "start")
+		stride := rapid.Uint32().Draw(t, "stride") | 1
+		host := rapid.Uint32().Draw(t, "hostBits")
+		top := 1<<16 + 1
+		if ones >= 18 && rapid.IntRange(0, 3).Draw(t, "twice") == 0 {
+			top = 1<<17 + 1
+		}
+		nth := func(i int) uint32 { // the i-th range: distinct for i < 2^ones (odd stride)
+			return uint32((uint64(start)+uint64(i)*uint64(stride))%space) << uint(32-ones)
+		}
+		f := netutil.NewIPv4Filter()
+		// riders of other lengths, inside 10.0.0.0/8 only if the crowd leaves them alone: judged by the model below
+		type rider struct {
+			p    prefix
+			live bool
+		}
+		var riders []rider
+		for k := 0; k < 4; k++ {
+			o := rapid.IntRange(1, 32).Draw(t, "riderLength")
+			if o == ones {
+				continue
+			}
+			r := rapid.Uint32().Draw(t, "rider") & mask(o)
+			if err := f.Add(ipnet(r, o)); err != nil {
+				t.Fatalf("Add(%v) = %v", prefix{r, o}, err)
+			}
+			riders = append(riders, rider{prefix{r, o}, true})
+		}
+		live := 0 // ranges 0..live-1 of the crowd are present
+		// inside: covered by one of the riders
+		inside := func(v uint32) bool {
+			for _, r := range riders {
+				if r.live && v&mask(r.p.ones) == r.p.net {
+					return true
+				}
+			}
+			return false // the crowd itself is judged by index (only addresses whose range number is known are probed)
+		}
+		probe := func(i int, where string) {
+			v := nth(i) | host&^mask(ones)
+			want := i < live || inside(v)
+			for _, ip := range []net.IP{ip4(v), ip4(v).To16()} {
+				if got := f.Contains(ip); got != want {
+					t.Fatalf("/%d crowd (start %08x, stride %08x) with %d live ranges, %s: Contains(%v as %d bytes) = %v, want %v (range #%d = %v, %s)", ones, start, stride, live, where, ip4(v), len(ip), got, want, i, prefix{nth(i), ones},
+						map[bool]string{true: "added and not removed", false: "never added, or removed"}[i < live])
+				}
+			}
+		}
+		checkpoint := func(where string) {
+			for _, i := range []int{0, 1, live / 2, live - 2, live - 1} {
+				if i >= 0 && i < live {
+					probe(i, where)
+				}
+			}
+			for k := 0; k < 8; k++ {
+				probe(rapid.IntRange(0, live-1).Draw(t, "someRange"), where)
+			}
+			// ranges beyond the live ones: never added or removed again (skip what the odd stride folds back onto live ones)
+			for _, i := range []int{live, live + 1, live + 7} {
+				if uint64(i) < space {
+					probe(i, where)
+				}
+			}
+			for _, r := range riders {
+				if got := f.Contains(ip4(r.p.net | host&^mask(r.p.ones))); got != true {
+					t.Fatalf("/%d crowd with %d live ranges, %s: the range %v that rides along is no longer inside", ones, live, where, r.p)
+				}
+			}
+		}
+		marks := map[int]bool{255: true, 256: true, 257: true, 65535: true, 65536: true, 65537: true, 131071: true, 131072: true, 131073: true}
+		if uint64(top) > space {
+			top = int(space)
+		}
+		for live < top {
+			if err := f.Add(ipnet(nth(live)|host&^mask(ones), ones)); err != nil {
+				t.Fatalf("Add(%v) = %v", prefix{nth(live), ones}, err)
+			}
+			live++
+			if marks[live] || live == top {
+				checkpoint("on the way up")
+			}
+		}
+		// and down again: the ranges added last are removed first
+		down := rapid.SampledFrom([]int{3, 300, 70000}).Draw(t, "removals")
+		for k := 0; k < down && live > 1; k++ {
+			if err := f.Remove(ipnet(nth(live-1), ones)); err != nil {
+				t.Fatalf("Remove(%v) = %v", prefix{nth(live - 1), ones}, err)
+			}
+			live--
+			if marks[live] || k == down-1 {
+				checkpoint("on the way down")
+			}
+		}
+		ev.Label(fmt.Sprintf("crowd_of_/%d", ones))
+		ev.LabelN("crowd:ranges_added", int64(top))
+		ev.Case(true, ev.Hash("crowd", fmt.Sprint(ones, start, stride, top, down)), func() string {
+			return fmt.Sprintf("/%d x %d ranges (start %08x, stride %08x), then %d removals", ones, top, start, stride, down)
+		})
+	})
+}
